@@ -1,5 +1,5 @@
 (* C17 — Turbotunnel packet adapters: no surfaced errors, leaks or aliasing.
-   Statements only; proofs are in Proofs/{GoHeap,ClientMap,QueueConn,QueueOut,QueueRetention,Redial,RedialOverlap}Proofs.v.
+   Statements only; proofs are in Proofs/{GoHeap,ClientMap,QueueConn,QueueOut,QueueRetention,Redial,RedialOverlap,RedialCapacity}Proofs.v.
    Models: Model/GoHeap.v (container/heap), Model/ClientMap.v (clientMapInner, explicit clock),
    Model/QueueConn.v (QueuePacketConn), Model/Redial.v (RedialPacketConn; error channel capacity
    0 = the pinned code, 1 = the repaired code).
@@ -13,8 +13,8 @@
    models (lib/checks/c17.py: keys queueconn-fifo, sweep-lost, "!aliased-*" answers of the redial
    driver). *)
 From Coq Require Import List NArith ZArith Bool Arith Lia Permutation.
-From Snow Require Import Model.GoHeap Model.ClientMap Model.QueueConn Model.Redial.
-From Snow Require Import Proofs.GoHeapProofs Proofs.ClientMapProofs Proofs.QueueConnProofs Proofs.QueueOutProofs Proofs.QueueRetentionProofs Proofs.RedialProofs Proofs.RedialOverlapProofs.
+From Snow Require Import Model.GoHeap Model.ClientMap Model.QueueConn Model.Redial Model.RedialQueue.
+From Snow Require Import Proofs.GoHeapProofs Proofs.ClientMapProofs Proofs.QueueConnProofs Proofs.QueueOutProofs Proofs.QueueRetentionProofs Proofs.RedialProofs Proofs.RedialOverlapProofs Proofs.RedialCapacityProofs.
 Import ListNotations.
 
 (* ================================================================ container/heap (GoHeap.v) *)
@@ -519,3 +519,72 @@ Proof.
     assert (R: reachable 1 8 s) by (eexists; exact Hrun).
     apply (redial_done_all_closed 1 8 s R (or_introl Hd) 0 c). rewrite E. reflexivity.
 Qed.
+
+(* ================================================================ the redialing connection at the capacity of its queues
+   qcap = queueSize (2048 in the code) is a parameter of the machine: LUWrite / LReadOk enqueue only while
+   the counter is below qcap and otherwise leave the state as it is (select ... default: drop). *)
+
+(* after ANY history - any number of writes, any schedule, any behaviour of the carriers - in which the
+   user has not called Close and no dial has failed: WriteTo answers (len, nil), also when the send queue
+   is full, in which case NOTHING changes (the packet is dropped and nothing is signalled); ReadFrom
+   returns a packet or blocks; both queues hold at most qcap packets *)
+Theorem C17_redial_write_never_errors_before_close_or_dial_failure :
+  forall ecap qcap tr s, run_trace ecap qcap tr rs_init = Some s ->
+    g_close_called s = false -> g_dial_failed s = false ->
+    user_result s LUWrite = UOk /\
+    (user_result s LURead = UPacket \/ user_result s LURead = UWouldBlock) /\
+    r_sendq s <= qcap /\ r_recvq s <= qcap /\
+    exists s', step ecap qcap s LUWrite = Some s' /\
+      r_closed s' = false /\ g_close_called s' = false /\ g_dial_failed s' = false /\
+      (r_sendq s < qcap -> r_sendq s' = S (r_sendq s)) /\
+      (r_sendq s = qcap -> s' = s).
+Proof. exact redial_write_never_errors_before_close_or_dial_failure. Qed.
+
+(* the hypotheses are satisfiable at and beyond the capacity, for every n: n writes while nothing drains
+   the queue (the first dial has not returned) leave min n qcap packets queued, the connection open and
+   the next write answered ok - the 2049th outstanding packet included *)
+Theorem C17_redial_writes_fill_then_drop : forall ecap qcap n,
+  exists s, run_trace ecap qcap (repeat LUWrite n) rs_init = Some s /\
+    r_sendq s = Nat.min n qcap /\ g_close_called s = false /\ g_dial_failed s = false /\
+    user_result s LUWrite = UOk.
+Proof. exact redial_writes_fill_then_drop. Qed.
+
+(* ... and with an active carrier whose WriteTo does not return (one packet with the carrier, qcap queued) *)
+Example C17_redial_capacity_with_blocked_carrier :
+  exists s, run_trace 1 3 ([LDTop; LDialOk; LUWrite; LWSelPkt 0] ++ repeat LUWrite 6) rs_init = Some s /\
+    r_sendq s = 3 /\ g_close_called s = false /\ g_dial_failed s = false /\
+    user_result s LUWrite = UOk /\ step 1 3 s LUWrite = Some s.
+Proof. exact capacity_with_blocked_carrier. Qed.
+
+Theorem C17_redial_queues_bounded : forall ecap qcap s,
+  reachable ecap qcap s -> r_sendq s <= qcap /\ r_recvq s <= qcap.
+Proof. exact redial_queues_bounded. Qed.
+
+(* contents (Model/RedialQueue.v): a queue that accepts while it holds fewer than cap packets and drops
+   otherwise hands out, in order, exactly what it accepted: taken ++ left = initially queued ++ accepted,
+   for every sequence of enqueue / dequeue operations, and never holds more than cap *)
+Theorem C17_redial_queue_fifo_of_accepted : forall (A : Type) (cap : nat) (ops : list (bop A)) (q : list A),
+  let '(out, acc, q') := bq_exec A cap ops q in out ++ q' = q ++ acc.
+Proof. exact bq_fifo. Qed.
+
+Theorem C17_redial_queue_bounded : forall (A : Type) (cap : nat) (ops : list (bop A)) (q : list A),
+  length q <= cap -> let '(_, _, q') := bq_exec A cap ops q in length q' <= cap.
+Proof. exact bq_bounded. Qed.
+
+Example C17_redial_queue_hyps_satisfiable :
+  bq_exec nat 2 [BPush nat 1; BPush nat 2; BPush nat 3; BPop nat; BPush nat 4; BPop nat; BPop nat; BPop nat] [] = ([1; 2; 4], [1; 2; 4], []).
+Proof. reflexivity. Qed.
+
+(* these contents are the machine's queues: along every step of the machine of Model/Redial.v the lengths of
+   the content queues (ghost_send: enqueue at LUWrite, dequeue at LWSelPkt; ghost_recv: enqueue at LReadOk,
+   dequeue at LURead) are its counters r_sendq / r_recvq *)
+Theorem C17_redial_contents_refine_counters :
+  forall (A : Type) ecap qcap s l s' (sq rq : list A) (x : A),
+    step ecap qcap s l = Some s' -> r_sendq s = length sq -> r_recvq s = length rq ->
+    r_sendq s' = length (ghost_send A qcap s l sq x) /\ r_recvq s' = length (ghost_recv A qcap s l rq x).
+Proof. exact redial_contents_refine_counters. Qed.
+
+Example C17_redial_contents_hyps_satisfiable :
+  step 1 2 (mkrs false ENone DDial [] 2 0 false false) LUWrite = Some (mkrs false ENone DDial [] 2 0 false false) /\
+  ghost_send nat 2 (mkrs false ENone DDial [] 2 0 false false) LUWrite [7; 8] 9 = [7; 8].
+Proof. split; reflexivity. Qed.
